@@ -104,13 +104,15 @@ class Interp:
             if op == "=":
                 return self.assign(x[2], self.ev(x[3], st), st)
             if op in ("+=", "-=", "*=", "<<=", ">>=", "|=", "&=", "^="):
-                cur = self.ev(x[2], st) if x[2][0] == "l" else TOP
+                tgt = x[2]
+                key = tgt[1] if tgt[0] == "l" else ("f:" + tgt[1] if (tgt[0] == "f" and len(tgt) == 2) else ("p:" + tgt[2] if tgt[0] == "p" else None))
+                cur = st.v.get(key, TOP) if key else TOP
                 r = self.ev(x[3], st)
                 nv = self.arith(op[:-1], cur, r)
-                if x[2][0] == "l":
-                    st.v[x[2][1]] = nv
+                if key:
+                    st.v[key] = nv
                 else:
-                    self.ev(x[2], st)
+                    self.ev(tgt, st)
                 return nv
             if op in ("&&", "||"):
                 a = self.ev(x[2], st)
@@ -248,6 +250,9 @@ class Interp:
                 yield from self.run(s[2] if c else s[3], st)
         elif t == "switch":
             yield from self.run_switch(s, st)
+        elif t == "while":
+            # only loops whose condition is concrete in the current state (bounded unrolling)
+            yield from self.run_while(s, st, 0)
         elif t == "return":
             if len(s) > 1 and isinstance(s[1], list):
                 try:
@@ -261,6 +266,26 @@ class Interp:
             yield "next", st
         else:
             raise Unmodelled("statement kind %s in the decoding round" % t)
+
+    def run_while(self, s, st, depth):
+        if depth > 64:
+            raise Unmodelled("loop does not terminate within 64 rounds in the abstract run")
+        try:
+            c = self.ev(s[1], st)
+        except _Throw:
+            return
+        if c == TOP:
+            raise Unmodelled("while condition is not concrete in the abstract run")
+        if not c:
+            yield "next", st
+            return
+        for kind, s2 in self.run(s[2], st):
+            if kind in ("next", "continue"):
+                yield from self.run_while(s, s2, depth + 1)
+            elif kind == "break":
+                yield "next", s2
+            else:
+                yield kind, s2
 
     def run_switch(self, s, st):
         try:
